@@ -1,5 +1,9 @@
 import DendroModel.Model.C18
 /-! C18 — property theorems about the event loops of `Model/C18.lean` (the definitions `drv_c18` runs).
+"Well formed" and — for Kingman / contained gene trees — "bifurcating" are facts of the model's TYPES (`BT`, `GT` are
+inductive trees, `GT.join` has exactly two children), not theorems; for birth–death trees "bifurcating" is the theorem
+`noUn` (no unary node survives pruning + suppression) on top of the binary constructor.  On the implementation these
+clauses are judged by the oracle (`arborescence_problems`, child counts).  Determinism is definitional in the model.
 Every theorem quantifies over EVERY list of draws, i.e. every behaviour of the random number generator.
 Obligations are the theorems directly in `DendroModel.C18`; helper lemmas live in `DendroModel.C18.Aux`. -/
 namespace DendroModel.C18
@@ -1219,11 +1223,13 @@ theorem pb_loop_inv (n : Nat) : ∀ (f : Nat) (t t' : BT) (next : Nat) (ds ds' :
       · simp at h
 
 /-- **pure-birth trees**: a namespace of `n ≥ 1` taxa yields exactly `n` leaves, all extant, no unary node, all at one
-depth, and leaf `j` (tree order) carries taxon `j` -/
+depth.  (The last conjunct, leaf `j` carries taxon `j`, merely restates `pbRun`'s assignment `leaf.taxon = taxon_namespace[idx]`
+with the proved leaf count substituted; distinctness of the taxa is immediate from it.) -/
 theorem pb_result (n : Nat) (ds : List Draw) (r : SimResult) (h1 : 1 ≤ n) (h : pbRun n ds = .ok r) :
     r.tree.nLeaves = n ∧ r.tree.aliveCount = n ∧ r.tree.noUn = true ∧ (∃ D, ∀ d ∈ r.tree.aliveDepths, d = D) ∧
     r.taxa = (List.range n).map (fun j => (j, j)) := by
   unfold pbRun at h
+  rw [if_neg (by simp; omega)] at h
   split at h
   · simp at h
   · rename_i t rest hl
@@ -2216,4 +2222,1197 @@ theorem containedRU_no_early_join (S : ST) (numGenes : Nat) (ds : List Draw) (g 
       exact hx.2
     have := contained_no_early_join _ ds1 g (Aux.good_set _ hf S hG) h
     exact Aux.JK_mono _ _ (fun a b d hd => Aux.div_set _ S a b d hd) g this
+
+/-! ### no internal failure, progress, leaf sets (added after the audit) -/
+
+
+/-- some tip flagged alive carries id `i` -/
+def BT.hasAlive (i : Nat) : BT → Bool
+  | .tip j _ a => a && j == i
+  | .un _ _ c => hasAlive i c
+  | .bin _ _ x y => hasAlive i x || hasAlive i y
+
+namespace Aux
+theorem hasAlive_addAlive (i : Nat) (w : Int) (t : BT) : (t.addAlive w).hasAlive i = t.hasAlive i := by
+  induction t with
+  | tip j l a => simp [BT.addAlive, BT.hasAlive]
+  | un j l c ih => simp [BT.addAlive, BT.hasAlive, ih]
+  | bin j l x y ihx ihy => simp [BT.addAlive, BT.hasAlive, ihx, ihy]
+
+theorem splitFirst_none (i a b : Nat) (l0 : Int) : ∀ (t : BT), splitFirst i a b l0 t = none → t.hasAlive i = false := by
+  intro t
+  induction t with
+  | tip j l al =>
+    intro h
+    simp only [BT.splitFirst] at h
+    split at h
+    · simp at h
+    · rename_i hc; simpa [BT.hasAlive] using hc
+  | un j l c ih => intro h; simp [BT.splitFirst] at h; simp [BT.hasAlive, ih h]
+  | bin j l x y ihx ihy =>
+    intro h
+    simp only [BT.splitFirst] at h
+    split at h
+    · simp at h
+    · rename_i hx
+      simp at h
+      simp [BT.hasAlive, ihx hx, ihy h]
+
+theorem splitFirst_some (i a b : Nat) (l0 : Int) (t : BT) (h : t.hasAlive i = true) : ∃ t', splitFirst i a b l0 t = some t' := by
+  cases hs : splitFirst i a b l0 t with
+  | some t' => exact ⟨t', rfl⟩
+  | none => rw [splitFirst_none i a b l0 t hs] at h; simp at h
+
+/-- after a birth the two daughters are alive tips and every other alive tip is untouched -/
+theorem splitFirst_hasAlive (i a b : Nat) (l0 : Int) : ∀ (t t' : BT), splitFirst i a b l0 t = some t' →
+    (∀ j, j ≠ i → t.hasAlive j = true → t'.hasAlive j = true) ∧ t'.hasAlive a = true ∧ t'.hasAlive b = true := by
+  intro t
+  induction t with
+  | tip j l al =>
+    intro t' h
+    simp only [BT.splitFirst] at h
+    split at h
+    · rename_i hc
+      simp at h; subst h
+      simp at hc
+      refine ⟨?_, by simp [BT.hasAlive], by simp [BT.hasAlive]⟩
+      intro k hk hal
+      simp [BT.hasAlive, hc.2] at hal
+      exact absurd hal.2.symm hk
+    · simp at h
+  | un j l c ih =>
+    intro t' h
+    simp only [BT.splitFirst, Option.map_eq_some_iff] at h
+    obtain ⟨c', hc, rfl⟩ := h
+    simpa [BT.hasAlive] using ih c' hc
+  | bin j l x y ihx ihy =>
+    intro t' h
+    simp only [BT.splitFirst] at h
+    split at h
+    · rename_i x' hx
+      simp at h; subst h
+      obtain ⟨h1, h2, h3⟩ := ihx x' hx
+      refine ⟨?_, by simp [BT.hasAlive, h2], by simp [BT.hasAlive, h3]⟩
+      intro k hk hal
+      simp only [BT.hasAlive, Bool.or_eq_true] at hal ⊢
+      rcases hal with hal | hal
+      · exact Or.inl (h1 k hk hal)
+      · exact Or.inr hal
+    · simp only [Option.map_eq_some_iff] at h
+      obtain ⟨y', hy, rfl⟩ := h
+      obtain ⟨h1, h2, h3⟩ := ihy y' hy
+      refine ⟨?_, by simp [BT.hasAlive, h2], by simp [BT.hasAlive, h3]⟩
+      intro k hk hal
+      simp only [BT.hasAlive, Bool.or_eq_true] at hal ⊢
+      rcases hal with hal | hal
+      · exact Or.inl hal
+      · exact Or.inr (h1 k hk hal)
+
+theorem killFirst_none (i : Nat) : ∀ (t : BT), killFirst i t = none → t.hasAlive i = false := by
+  intro t
+  induction t with
+  | tip j l al =>
+    intro h
+    simp only [BT.killFirst] at h
+    split at h
+    · simp at h
+    · rename_i hc; simpa [BT.hasAlive] using hc
+  | un j l c ih => intro h; simp [BT.killFirst] at h; simp [BT.hasAlive, ih h]
+  | bin j l x y ihx ihy =>
+    intro h
+    simp only [BT.killFirst] at h
+    split at h
+    · simp at h
+    · rename_i hx
+      simp at h
+      simp [BT.hasAlive, ihx hx, ihy h]
+
+theorem killFirst_some (i : Nat) (t : BT) (h : t.hasAlive i = true) : ∃ t', killFirst i t = some t' := by
+  cases hs : killFirst i t with
+  | some t' => exact ⟨t', rfl⟩
+  | none => rw [killFirst_none i t hs] at h; simp at h
+
+theorem killFirst_hasAlive (i : Nat) : ∀ (t t' : BT), killFirst i t = some t' →
+    ∀ j, j ≠ i → t.hasAlive j = true → t'.hasAlive j = true := by
+  intro t
+  induction t with
+  | tip j l al =>
+    intro t' h
+    simp only [BT.killFirst] at h
+    split at h
+    · rename_i hc
+      simp at h; subst h
+      simp at hc
+      intro k hk hal
+      simp [BT.hasAlive, hc.2] at hal
+      exact absurd hal.2.symm hk
+    · simp at h
+  | un j l c ih =>
+    intro t' h
+    simp only [BT.killFirst, Option.map_eq_some_iff] at h
+    obtain ⟨c', hc, rfl⟩ := h
+    simpa [BT.hasAlive] using ih c' hc
+  | bin j l x y ihx ihy =>
+    intro t' h
+    simp only [BT.killFirst] at h
+    split at h
+    · rename_i x' hx
+      simp at h; subst h
+      intro k hk hal
+      simp only [BT.hasAlive, Bool.or_eq_true] at hal ⊢
+      rcases hal with hal | hal
+      · exact Or.inl (ihx x' hx k hk hal)
+      · exact Or.inr hal
+    · simp only [Option.map_eq_some_iff] at h
+      obtain ⟨y', hy, rfl⟩ := h
+      intro k hk hal
+      simp only [BT.hasAlive, Bool.or_eq_true] at hal ⊢
+      rcases hal with hal | hal
+      · exact Or.inl hal
+      · exact Or.inr (ihy y' hy k hk hal)
+
+theorem removeTip_sublist (i : Nat) : ∀ (l : List Tip), (removeTip i l).Sublist l := by
+  intro l
+  induction l with
+  | nil => simp [removeTip]
+  | cons t ts ih =>
+    simp only [removeTip]
+    split
+    · exact List.sublist_cons_self t ts
+    · exact ih.cons_cons t
+
+theorem removeTip_ne (i : Nat) : ∀ (l : List Tip), (l.map Tip.id).Nodup → ∀ t ∈ removeTip i l, t.id ≠ i := by
+  intro l
+  induction l with
+  | nil => intro _ t ht; simp [removeTip] at ht
+  | cons x xs ih =>
+    intro hnd t ht
+    simp only [List.map_cons, List.nodup_cons] at hnd
+    simp only [removeTip] at ht
+    split at ht
+    · rename_i hx
+      simp at hx
+      intro hti
+      exact hnd.1 (by rw [hx, ← hti]; exact List.mem_map.mpr ⟨t, ht, rfl⟩)
+    · rename_i hx
+      simp at hx
+      simp at ht
+      rcases ht with rfl | ht
+      · exact hx
+      · exact ih hnd.2 t ht
+
+theorem rates_length : ∀ (l : List Tip), (rates l).length = 2 * l.length := by
+  intro l
+  induction l with
+  | nil => simp [rates]
+  | cons t ts ih => simp [rates, ih]; omega
+
+theorem rates_props : ∀ (l : List Tip), (∀ t ∈ l, 0 < t.br ∧ 0 ≤ t.dr) → (∀ w ∈ rates l, 0 ≤ w) ∧ 0 ≤ (rates l).sum ∧ (l ≠ [] → 0 < (rates l).sum) := by
+  intro l
+  induction l with
+  | nil => intro _; simp [rates]
+  | cons t ts ih =>
+    intro h
+    obtain ⟨h1, h2, _⟩ := ih (fun x hx => h x (by simp [hx]))
+    obtain ⟨hb, hd⟩ := h t (by simp)
+    refine ⟨?_, ?_, ?_⟩
+    · intro w hw
+      simp [rates] at hw
+      rcases hw with rfl | rfl | hw
+      · omega
+      · omega
+      · exact h1 w hw
+    · simp [rates]; omega
+    · intro _; simp [rates]; omega
+end Aux
+
+/-- the part of the loop invariant of `birth_death_tree` that guarantees every internal lookup succeeds: the entries
+of `extant_tips` have pairwise distinct fresh ids, each names an alive tip of the tree, and no rate is below the initial one -/
+structure SInv (P : BDParams) (s : BDState) : Prop where
+  nodup : (s.extant.map Tip.id).Nodup
+  fresh : ∀ t ∈ s.extant, t.id < s.next
+  alive : ∀ t ∈ s.extant, s.tree.hasAlive t.id = true
+  rates : ∀ t ∈ s.extant, P.b ≤ t.br ∧ P.d ≤ t.dr
+  ne : s.extant ≠ []
+
+theorem bd_init_sinv (P : BDParams) : SInv P (bdInit P) := by
+  refine ⟨by simp [bdInit], by simp [bdInit], by simp [bdInit, BT.hasAlive], by simp [bdInit], by simp [bdInit]⟩
+
+
+/-- draws the scripted generator can serve for `gauss`: never lowering a rate -/
+def GaussNonneg (ds : List Draw) : Prop := ∀ v, Draw.g v ∈ ds → 0 ≤ v
+
+namespace Aux
+theorem sbirth (P : BDParams) (s : BDState) (nd : Tip) (ds : List Draw) (hS : SInv P s) (hnd : nd ∈ s.extant) (hg : GaussNonneg ds) :
+    bdBirth s nd (removeTip nd.id s.extant) ds ≠ .error .state ∧
+    ∀ s' ds', bdBirth s nd (removeTip nd.id s.extant) ds = .ok (.cont s' ds') → SInv P s' ∧ (∀ x ∈ ds', x ∈ ds) := by
+  obtain ⟨t, ht⟩ := splitFirst_some nd.id s.next (s.next + 1) 0 s.tree (hS.alive nd hnd)
+  obtain ⟨a1, a2, a3⟩ := splitFirst_hasAlive _ _ _ _ _ _ ht
+  have hsub := removeTip_sublist nd.id s.extant
+  unfold bdBirth
+  split
+  · rename_i g1 g2 g3 g4 ds3
+    rw [ht]
+    refine ⟨by simp, ?_⟩
+    intro s' ds' h
+    simp at h
+    obtain ⟨rfl, rfl⟩ := h
+    have hrn := hS.rates nd hnd
+    have hg1 := hg g1 (by simp)
+    have hg2 := hg g2 (by simp)
+    have hg3 := hg g3 (by simp)
+    have hg4 := hg g4 (by simp)
+    refine ⟨⟨?_, ?_, ?_, ?_, by simp⟩, by intro x hx; simp [hx]⟩
+    · simp only [List.map_append, List.map_cons, List.map_nil]
+      rw [List.nodup_append]
+      refine ⟨(hS.nodup.sublist (hsub.map Tip.id)), by simp, ?_⟩
+      intro x hx y hy
+      simp only [List.mem_map] at hx
+      obtain ⟨t0, ht0, rfl⟩ := hx
+      have := hS.fresh t0 (hsub.subset ht0)
+      simp at hy
+      omega
+    · intro t0 ht0
+      simp only [List.mem_append, List.mem_cons, List.mem_nil_iff, or_false] at ht0
+      rcases ht0 with h | rfl | rfl
+      · have := hS.fresh t0 (hsub.subset h); show t0.id < s.next + 2; omega
+      · simp
+      · simp
+    · intro t0 ht0
+      simp only [List.mem_append, List.mem_cons, List.mem_nil_iff, or_false] at ht0
+      rcases ht0 with h | rfl | rfl
+      · exact a1 t0.id (removeTip_ne nd.id s.extant hS.nodup t0 h) (hS.alive t0 (hsub.subset h))
+      · exact a2
+      · exact a3
+    · intro t0 ht0
+      simp only [List.mem_append, List.mem_cons, List.mem_nil_iff, or_false] at ht0
+      rcases ht0 with h | rfl | rfl
+      · exact hS.rates t0 (hsub.subset h)
+      · simp; omega
+      · simp; omega
+  · refine ⟨by split <;> simp, ?_⟩
+    intro s' ds' h
+    simp at h
+
+theorem sdeath (P : BDParams) (s : BDState) (nd : Tip) (ds : List Draw) (hS : SInv P s) (hnd : nd ∈ s.extant) :
+    bdDeath P s nd (removeTip nd.id s.extant) ds ≠ .error .state ∧
+    ∀ s' ds', bdDeath P s nd (removeTip nd.id s.extant) ds = .ok (.cont s' ds') → SInv P s' ∧ (∀ x ∈ ds', x ∈ ds) := by
+  obtain ⟨t, ht⟩ := killFirst_some nd.id s.tree (hS.alive nd hnd)
+  have a1 := killFirst_hasAlive _ _ _ ht
+  have hsub := removeTip_sublist nd.id s.extant
+  unfold bdDeath
+  split
+  · refine ⟨by simp, ?_⟩
+    intro s' ds' h
+    simp at h
+    obtain ⟨rfl, rfl⟩ := h
+    have hpos : 0 < s.next := by have := hS.fresh nd hnd; omega
+    exact ⟨⟨by simp [bdRestart], by simpa [bdRestart] using hpos, by simp [bdRestart, BT.hasAlive], by simp [bdRestart], by simp [bdRestart]⟩, fun x hx => hx⟩
+  · rename_i hne
+    rw [ht]
+    refine ⟨by simp, ?_⟩
+    intro s' ds' h
+    simp at h
+    obtain ⟨rfl, rfl⟩ := h
+    refine ⟨⟨hS.nodup.sublist (hsub.map Tip.id), fun t0 h0 => hS.fresh t0 (hsub.subset h0), ?_, fun t0 h0 => hS.rates t0 (hsub.subset h0), ?_⟩, fun x hx => hx⟩
+    · intro t0 h0
+      exact a1 t0.id (removeTip_ne nd.id s.extant hS.nodup t0 h0) (hS.alive t0 (hsub.subset h0))
+    · intro he; simp at he; simp [he] at hne
+
+theorem sevent (P : BDParams) (s : BDState) (ds : List Draw) (hb : 0 < P.b) (hd : 0 ≤ P.d) (hS : SInv P s) (hg : GaussNonneg ds) :
+    bdEvent P s ds ≠ .error .state ∧
+    ∀ s' ds', bdEvent P s ds = .ok (.cont s' ds') → SInv P s' ∧ (∀ x ∈ ds', x ∈ ds) := by
+  unfold bdEvent
+  split
+  · exact ⟨by simp, by intro s' ds' h; simp at h⟩
+  · rename_i p q ds2
+    split
+    · exact ⟨by simp, by intro s' ds' h; simp at h⟩
+    · rename_i hpq
+      simp at hpq
+      have hr := rates_props s.extant (fun t ht => by have := hS.rates t ht; omega)
+      obtain ⟨k, hk⟩ := wic_total p q (rates s.extant) (by omega) (by omega) (hr.2.2 hS.ne)
+      have hklt := wic_lt_length p q _ k (by omega) hr.2.1 hk
+      rw [rates_length] at hklt
+      rw [hk]
+      simp only
+      have hidx : k / 2 < s.extant.length := by omega
+      rw [List.getElem?_eq_getElem hidx]
+      simp only
+      have hnd : s.extant[k / 2] ∈ s.extant := List.getElem_mem hidx
+      have hg2 : GaussNonneg ds2 := fun v hv => hg v (by simp [hv])
+      split
+      · obtain ⟨h1, h2⟩ := sbirth P s _ ds2 hS hnd hg2
+        refine ⟨h1, ?_⟩
+        intro s' ds' h
+        obtain ⟨a, b⟩ := h2 s' ds' h
+        exact ⟨a, fun x hx => by simp [b x hx]⟩
+      · obtain ⟨h1, h2⟩ := sdeath P s _ ds2 hS hnd
+        refine ⟨h1, ?_⟩
+        intro s' ds' h
+        obtain ⟨a, b⟩ := h2 s' ds' h
+        exact ⟨a, fun x hx => by simp [b x hx]⟩
+  · exact ⟨by simp, by intro s' ds' h; simp at h⟩
+
+theorem siter (P : BDParams) (s : BDState) (ds : List Draw) (hb : 0 < P.b) (hd : 0 ≤ P.d) (hS : SInv P s) (hg : GaussNonneg ds) :
+    bdIter P s ds ≠ .error .state ∧
+    ∀ s' ds', bdIter P s ds = .ok (.cont s' ds') → SInv P s' ∧ (∀ x ∈ ds', x ∈ ds) := by
+  unfold bdIter
+  split
+  · exact ⟨by simp, by intro s' ds' h; simp at h⟩
+  · split
+    · exact ⟨by simp, by intro s' ds' h; simp at h⟩
+    · rename_i w ds1
+      split
+      · exact ⟨by simp, by intro s' ds' h; simp at h⟩
+      · simp only
+        have hS1 : SInv P { s with tree := s.tree.addAlive w, total := s.total + w } :=
+          ⟨hS.nodup, hS.fresh, fun t ht => by simp [hasAlive_addAlive, hS.alive t ht], hS.rates, hS.ne⟩
+        split
+        · obtain ⟨h1, h2⟩ := sevent P _ ds1 hb hd hS1 (fun v hv => hg v (by simp [hv]))
+          refine ⟨h1, ?_⟩
+          intro s' ds' h
+          obtain ⟨a, b⟩ := h2 s' ds' h
+          exact ⟨a, fun x hx => by simp [b x hx]⟩
+        · refine ⟨by simp, ?_⟩
+          intro s' ds' h
+          simp at h
+          obtain ⟨rfl, rfl⟩ := h
+          exact ⟨hS1, fun x hx => by simp [hx]⟩
+    · exact ⟨by simp, by intro s' ds' h; simp at h⟩
+
+theorem sloop (P : BDParams) (hb : 0 < P.b) (hd : 0 ≤ P.d) : ∀ (f : Nat) (s : BDState) (ds : List Draw), SInv P s → GaussNonneg ds →
+    bdLoop P f s ds ≠ .error .state := by
+  intro f
+  induction f with
+  | zero => intro s ds _ _; simp [bdLoop]
+  | succ f ih =>
+    intro s ds hS hg
+    obtain ⟨h1, h2⟩ := siter P s ds hb hd hS hg
+    simp only [bdLoop]
+    split
+    · rename_i e he
+      intro h
+      simp at h
+      subst h
+      exact h1 he
+    · simp
+    · rename_i s1 ds1 hit
+      obtain ⟨a, b⟩ := h2 s1 ds1 hit
+      exact ih s1 ds1 a (fun v hv => hg v (b _ hv))
+
+theorem birth_not_arg (s : BDState) (nd : Tip) (rest : List Tip) (ds : List Draw) : bdBirth s nd rest ds ≠ .error .arg := by
+  unfold bdBirth
+  split
+  · split <;> simp
+  · split <;> simp
+theorem death_not_arg (P : BDParams) (s : BDState) (nd : Tip) (rest : List Tip) (ds : List Draw) : bdDeath P s nd rest ds ≠ .error .arg := by
+  unfold bdDeath
+  split
+  · simp
+  · split <;> simp
+theorem event_not_arg (P : BDParams) (s : BDState) (ds : List Draw) : bdEvent P s ds ≠ .error .arg := by
+  unfold bdEvent
+  split
+  · simp
+  · split
+    · simp
+    · split
+      · simp
+      · split
+        · simp
+        · split
+          · exact birth_not_arg _ _ _ _
+          · exact death_not_arg _ _ _ _ _
+  · simp
+theorem iter_not_arg (P : BDParams) (s : BDState) (ds : List Draw) : bdIter P s ds ≠ .error .arg := by
+  unfold bdIter
+  split
+  · simp
+  · split
+    · simp
+    · split
+      · simp
+      · simp only
+        split
+        · exact event_not_arg _ _ _
+        · simp
+    · simp
+theorem loop_not_arg (P : BDParams) : ∀ (f : Nat) (s : BDState) (ds : List Draw), bdLoop P f s ds ≠ .error .arg := by
+  intro f
+  induction f with
+  | zero => intro s ds; simp [bdLoop]
+  | succ f ih =>
+    intro s ds
+    simp only [bdLoop]
+    split
+    · rename_i e he
+      intro h; simp at h; subst h
+      exact iter_not_arg P s ds he
+    · simp
+    · exact ih _ _
+
+theorem finish_not_state (n0 : Nat) (t : BT) (ds : List Draw) (h : 1 ≤ t.aliveCount) : finish n0 t ds ≠ .error .state := by
+  unfold finish
+  split
+  · rename_i hp
+    have := (prune_none t hp).1
+    omega
+  · simp only
+    split
+    · split <;> simp
+    · split <;> simp
+end Aux
+
+/-- **no internal failure**: with admissible rates (`birth > 0`, `death ≥ 0`) and `gauss` draws that never lower a rate
+(in particular `birth_rate_sd = death_rate_sd = 0`), a run of `birth_death_tree` can only stop early because the draw
+script is too short (`draws`) or serves a draw of the wrong kind / an impossible value (`kind`): every lookup of the
+code (the weighted choice, `extant_tips.remove`, the node to split or kill, the pruning) succeeds and the fuel suffices -/
+theorem bd_only_script_errors (P : BDParams) (n0 : Nat) (ds : List Draw) (e : Err) (hb : 0 < P.b) (hd : 0 ≤ P.d)
+    (hg : GaussNonneg ds) (h : bdRun P n0 ds = .error e) : e = .draws ∨ e = .kind := by
+  have hfuel := bd_fuel_suffices P (ds.length + 1) (bdInit P) ds (bd_init_inv P) (by omega)
+  have hstate := Aux.sloop P hb hd (ds.length + 1) (bdInit P) ds (bd_init_sinv P) hg
+  unfold bdRun at h
+  split at h
+  · rename_i e' he
+    simp at h; subst h
+    -- errors of the loop
+    cases e' with
+    | draws => simp
+    | kind => simp
+    | fuel => exact absurd he hfuel
+    | state => exact absurd he hstate
+    | arg => exact absurd he (Aux.loop_not_arg P _ _ _)
+  · rename_i s rest hl
+    obtain ⟨hI, _⟩ := bd_loop_inv P _ _ _ _ _ (bd_init_inv P) hl
+    have h1 : 1 ≤ s.tree.aliveCount := by rw [← hI.count]; exact hI.pos
+    have := Aux.finish_not_state n0 s.tree rest h1
+    cases e with
+    | draws => simp
+    | kind => simp
+    | state => exact absurd h this
+    | fuel =>
+      exfalso
+      unfold finish at h
+      split at h
+      · simp at h
+      · simp only at h
+        split at h
+        · split at h <;> simp at h
+        · split at h <;> simp at h
+    | arg =>
+      exfalso
+      unfold finish at h
+      split at h
+      · simp at h
+      · simp only at h
+        split at h
+        · split at h <;> simp at h
+        · split at h <;> simp at h
+
+/-- **progress of the loop body**: from a state satisfying the invariant, one waiting time `w ≥ 0`, one uniform draw
+`0 ≤ p/q < 1` and four non-negative `gauss` draws always let a pass through the body of `birth_death_tree` complete
+(whatever it does: stop, no event because of `max_time`, birth, death, restart) -/
+theorem bd_iter_progress (P : BDParams) (s : BDState) (w p q g1 g2 g3 g4 : Int) (rest : List Draw)
+    (hb : 0 < P.b) (hd : 0 ≤ P.d) (hS : SInv P s) (hw : 0 ≤ w) (hp : 0 ≤ p) (hpq : p < q) :
+    ∃ st, bdIter P s (.w w :: .u p q :: .g g1 :: .g g2 :: .g g3 :: .g g4 :: rest) = .ok st := by
+  unfold bdIter
+  split
+  · exact ⟨_, rfl⟩
+  · simp only
+    rw [if_neg (by omega)]
+    split
+    · have hS1 : SInv P { s with tree := s.tree.addAlive w, total := s.total + w } :=
+        ⟨hS.nodup, hS.fresh, fun t ht => by simp [Aux.hasAlive_addAlive, hS.alive t ht], hS.rates, hS.ne⟩
+      generalize hs1 : ({ s with tree := s.tree.addAlive w, total := s.total + w } : BDState) = s1 at hS1
+      unfold bdEvent
+      simp only
+      have hcond : (decide (q ≤ 0) || decide (p < 0) || decide (p ≥ q)) = false := by simp; omega
+      rw [hcond]
+      simp only [Bool.false_eq_true, if_false]
+      have hr := Aux.rates_props s1.extant (fun t ht => by have := hS1.rates t ht; omega)
+      obtain ⟨k, hk⟩ := wic_total p q (rates s1.extant) hp hpq (hr.2.2 hS1.ne)
+      have hklt := wic_lt_length p q _ k hp hr.2.1 hk
+      rw [Aux.rates_length] at hklt
+      rw [hk]
+      simp only
+      have hidx : k / 2 < s1.extant.length := by omega
+      rw [List.getElem?_eq_getElem hidx]
+      simp only
+      have hnd : s1.extant[k / 2] ∈ s1.extant := List.getElem_mem hidx
+      split
+      · obtain ⟨t, ht⟩ := Aux.splitFirst_some s1.extant[k / 2].id s1.next (s1.next + 1) 0 s1.tree (hS1.alive _ hnd)
+        unfold bdBirth
+        simp only [ht]
+        exact ⟨_, rfl⟩
+      · unfold bdDeath
+        split
+        · exact ⟨_, rfl⟩
+        · obtain ⟨t, ht⟩ := Aux.killFirst_some s1.extant[k / 2].id s1.tree (hS1.alive _ hnd)
+          simp only [ht]
+          exact ⟨_, rfl⟩
+    · exact ⟨_, rfl⟩
+
+/-- **progress of the tail**: once the loop has stopped (at least one extant tip), two valid shuffles complete the run -/
+theorem finish_progress (n0 : Nat) (t : BT) (p1 p2 : List Nat) (h1 : 1 ≤ t.aliveCount) (hp1 : isPerm n0 p1 = true)
+    (hp2 : isPerm t.aliveCount p2 = true) : ∃ r, finish n0 t [.perm p1, .perm p2] = .ok r := by
+  unfold finish
+  split
+  · rename_i hp
+    have := (Aux.prune_none t hp).1
+    omega
+  · rename_i t1 ht1
+    obtain ⟨a1, _, _⟩ := Aux.prune_some t t1 ht1
+    obtain ⟨_, b2, _, _⟩ := Aux.suppress_props t1
+    simp only
+    unfold assignTaxa
+    rw [b2, a1, hp1, hp2]
+    exact ⟨_, rfl⟩
+
+namespace Aux
+theorem set_perm {α : Type} (v : α) : ∀ (l : List α) (k : Nat), k < l.length → (l.set k v).Perm (v :: l.eraseIdx k) := by
+  intro l
+  induction l with
+  | nil => intro k h; simp at h
+  | cons x xs ih =>
+    intro k h
+    cases k with
+    | zero => simp
+    | succ k =>
+      simp only [List.set_cons_succ, List.eraseIdx_cons_succ]
+      exact ((ih k (by simpa using h)).cons x).trans (List.Perm.swap v x _)
+
+theorem splitFast_none (i a b : Nat) (T : Int) : ∀ (t : BT), splitFast i a b T t = none → t.hasAlive i = false := by
+  intro t
+  induction t with
+  | tip j l al =>
+    intro h
+    simp only [BT.splitFast] at h
+    split at h
+    · simp at h
+    · rename_i hc; simpa [BT.hasAlive] using hc
+  | un j l c ih => intro h; simp [BT.splitFast] at h; simp [BT.hasAlive, ih h]
+  | bin j l x y ihx ihy =>
+    intro h
+    simp only [BT.splitFast] at h
+    split at h
+    · simp at h
+    · rename_i hx
+      simp at h
+      simp [BT.hasAlive, ihx hx, ihy h]
+
+theorem splitFast_some (i a b : Nat) (T : Int) (t : BT) (h : t.hasAlive i = true) : ∃ t', splitFast i a b T t = some t' := by
+  cases hs : splitFast i a b T t with
+  | some t' => exact ⟨t', rfl⟩
+  | none => rw [splitFast_none i a b T t hs] at h; simp at h
+
+theorem splitFast_hasAlive (i a b : Nat) (T : Int) : ∀ (t t' : BT), splitFast i a b T t = some t' →
+    (∀ j, j ≠ i → t.hasAlive j = true → t'.hasAlive j = true) ∧ t'.hasAlive a = true ∧ t'.hasAlive b = true := by
+  intro t
+  induction t with
+  | tip j l al =>
+    intro t' h
+    simp only [BT.splitFast] at h
+    split at h
+    · rename_i hc
+      simp at h; subst h
+      simp at hc
+      refine ⟨?_, by simp [BT.hasAlive], by simp [BT.hasAlive]⟩
+      intro k hk hal
+      simp [BT.hasAlive, hc.2] at hal
+      exact absurd hal.2.symm hk
+    · simp at h
+  | un j l c ih =>
+    intro t' h
+    simp only [BT.splitFast, Option.map_eq_some_iff] at h
+    obtain ⟨c', hc, rfl⟩ := h
+    simpa [BT.hasAlive] using ih c' hc
+  | bin j l x y ihx ihy =>
+    intro t' h
+    simp only [BT.splitFast] at h
+    split at h
+    · rename_i x' hx
+      simp at h; subst h
+      obtain ⟨h1, h2, h3⟩ := ihx x' hx
+      refine ⟨?_, by simp [BT.hasAlive, h2], by simp [BT.hasAlive, h3]⟩
+      intro k hk hal
+      simp only [BT.hasAlive, Bool.or_eq_true] at hal ⊢
+      rcases hal with hal | hal
+      · exact Or.inl (h1 k hk hal)
+      · exact Or.inr hal
+    · simp only [Option.map_eq_some_iff] at h
+      obtain ⟨y', hy, rfl⟩ := h
+      obtain ⟨h1, h2, h3⟩ := ihy y' hy
+      refine ⟨?_, by simp [BT.hasAlive, h2], by simp [BT.hasAlive, h3]⟩
+      intro k hk hal
+      simp only [BT.hasAlive, Bool.or_eq_true] at hal ⊢
+      rcases hal with hal | hal
+      · exact Or.inl hal
+      · exact Or.inr (h1 k hk hal)
+
+/-- under `Nodup`, what is left after erasing position `k` differs from the erased element -/
+theorem eraseIdx_ne (l : List Nat) (k : Nat) (a : Nat) (hk : l[k]? = some a) (hnd : l.Nodup) : ∀ x ∈ l.eraseIdx k, x ≠ a := by
+  have hp := eraseIdx_perm l k a hk
+  have := (hp.nodup_iff).mpr hnd
+  intro x hx hxa
+  subst hxa
+  exact (List.nodup_cons.mp this).1 hx
+end Aux
+
+/-- lookup part of the invariant of `fast_birth_death_tree` -/
+structure FSInv (s : FState) : Prop where
+  nodup : s.extant.Nodup
+  fresh : ∀ i ∈ s.extant, i < s.next
+  alive : ∀ i ∈ s.extant, s.tree.hasAlive i = true
+  ne : s.extant ≠ []
+
+theorem fbd_init_sinv : FSInv fInit := by
+  refine ⟨by simp [fInit], by simp [fInit], by simp [fInit, BT.hasAlive], by simp [fInit]⟩
+
+namespace Aux
+theorem fsevent (P : BDParams) (s : FState) (ds : List Draw) (hS : FSInv s) :
+    fbdEvent P s ds ≠ .error .state ∧ fbdEvent P s ds ≠ .error .fuel ∧ fbdEvent P s ds ≠ .error .arg ∧
+    ∀ s' ds', fbdEvent P s ds = .ok (.cont s' ds') → FSInv s' := by
+  unfold fbdEvent
+  split
+  · rename_i ti p q ds2
+    split
+    · simp
+    split
+    · simp
+    split
+    · simp
+    · rename_i nd hnd
+      have hidx : ti.toNat < s.extant.length := (List.getElem?_eq_some_iff.mp hnd).1
+      have hmem : nd ∈ s.extant := List.mem_of_getElem? hnd
+      have hne := eraseIdx_ne s.extant ti.toNat nd hnd hS.nodup
+      have hsub := List.eraseIdx_sublist s.extant ti.toNat
+      split
+      · obtain ⟨t, ht⟩ := splitFast_some nd s.next (s.next + 1) s.total s.tree (hS.alive nd hmem)
+        obtain ⟨a1, a2, a3⟩ := splitFast_hasAlive _ _ _ _ _ _ ht
+        rw [ht]
+        refine ⟨by simp, by simp, by simp, ?_⟩
+        intro s' ds' h
+        simp at h
+        obtain ⟨rfl, _⟩ := h
+        have hperm := set_perm s.next s.extant ti.toNat hidx
+        have hfr : ∀ x ∈ s.extant.eraseIdx ti.toNat, x < s.next := fun x hx => hS.fresh x (hsub.subset hx)
+        have hnd2 : (s.next :: s.extant.eraseIdx ti.toNat).Nodup :=
+          List.nodup_cons.mpr ⟨fun hm => by have := hfr _ hm; omega, hS.nodup.sublist hsub⟩
+        refine ⟨?_, ?_, ?_, by simp⟩
+        · show (s.extant.set ti.toNat s.next ++ [s.next + 1]).Nodup
+          rw [List.nodup_append]
+          refine ⟨hperm.nodup_iff.mpr hnd2, by simp, ?_⟩
+          intro x hx y hy
+          have := hperm.subset hx
+          simp at this hy
+          rcases this with rfl | h
+          · omega
+          · have := hfr x h; omega
+        · intro x hx
+          show x < s.next + 2
+          simp only [List.mem_append, List.mem_singleton] at hx
+          rcases hx with hx | rfl
+          · have := hperm.subset hx
+            simp at this
+            rcases this with rfl | h
+            · omega
+            · have := hfr x h; omega
+          · omega
+        · intro x hx
+          simp only [List.mem_append, List.mem_singleton] at hx
+          rcases hx with hx | rfl
+          · have := hperm.subset hx
+            simp at this
+            rcases this with rfl | h
+            · exact a2
+            · exact a1 x (hne x h) (hS.alive x (hsub.subset h))
+          · exact a3
+      · split
+        · refine ⟨by simp, by simp, by simp, ?_⟩
+          intro s' ds' h
+          simp at h
+          obtain ⟨rfl, _⟩ := h
+          have hpos : 0 < s.next := by have := hS.fresh nd hmem; omega
+          exact ⟨by simp, by simpa using hpos, by simp [BT.hasAlive], by simp⟩
+        · rename_i hnemp
+          obtain ⟨t, ht⟩ := killFirst_some nd s.tree (hS.alive nd hmem)
+          have a1 := killFirst_hasAlive _ _ _ ht
+          rw [ht]
+          refine ⟨by simp, by simp, by simp, ?_⟩
+          intro s' ds' h
+          simp at h
+          obtain ⟨rfl, _⟩ := h
+          refine ⟨hS.nodup.sublist hsub, fun x hx => hS.fresh x (hsub.subset hx), fun x hx => a1 x (hne x hx) (hS.alive x (hsub.subset hx)), ?_⟩
+          intro he
+          simp at he
+          simp [he] at hnemp
+  · refine ⟨by split <;> simp, by split <;> simp, by split <;> simp, ?_⟩
+    intro s' ds' h
+    simp at h
+
+theorem fsiter (P : BDParams) (s : FState) (ds : List Draw) (hS : FSInv s) :
+    fbdIter P s ds ≠ .error .state ∧ fbdIter P s ds ≠ .error .fuel ∧ fbdIter P s ds ≠ .error .arg ∧
+    ∀ s' ds', fbdIter P s ds = .ok (.cont s' ds') → FSInv s' := by
+  unfold fbdIter
+  split
+  · exact ⟨by simp, by simp, by simp, by intro s' ds' h; simp at h⟩
+  · split
+    · exact ⟨by simp, by simp, by simp, by intro s' ds' h; simp at h⟩
+    · rename_i w ds1
+      split
+      · exact ⟨by simp, by simp, by simp, by intro s' ds' h; simp at h⟩
+      · simp only
+        have hS1 : FSInv { s with total := s.total + w } := ⟨hS.nodup, hS.fresh, hS.alive, hS.ne⟩
+        split
+        · exact fsevent P _ ds1 hS1
+        · refine ⟨by simp, by simp, by simp, ?_⟩
+          intro s' ds' h
+          simp at h
+          obtain ⟨rfl, _⟩ := h
+          exact hS1
+    · exact ⟨by simp, by simp, by simp, by intro s' ds' h; simp at h⟩
+
+theorem fsloop (P : BDParams) : ∀ (f : Nat) (s : FState) (ds : List Draw), FSInv s → FInv P s → ds.length < f →
+    ∀ e, fbdLoop P f s ds = .error e → e = .draws ∨ e = .kind := by
+  intro f
+  induction f with
+  | zero => intro s ds _ _ h; omega
+  | succ f ih =>
+    intro s ds hS hI hlen e h
+    obtain ⟨h1, h2, h3, h4⟩ := fsiter P s ds hS
+    simp only [fbdLoop] at h
+    split at h
+    · rename_i e' he
+      simp at h; subst h
+      cases e' with
+      | draws => simp
+      | kind => simp
+      | fuel => exact absurd he h2
+      | state => exact absurd he h1
+      | arg => exact absurd he h3
+    · simp at h
+    · rename_i s1 ds1 hit
+      have := fbd_inv P s s1 ds ds1 hI hit
+      exact ih s1 ds1 (h4 s1 ds1 hit) this.1 (by omega) e h
+end Aux
+
+/-- **no internal failure, fast variant**: with `birth + death > 0` a run of `fast_birth_death_tree` can only fail on its
+draw script (too short, wrong kind, `randint` out of range): the fuel suffices and every lookup succeeds -/
+theorem fbd_only_script_errors (P : BDParams) (n0 : Nat) (ds : List Draw) (e : Err) (hbd : 0 < P.b + P.d)
+    (h : fbdRun P n0 ds = .error e) : e = .draws ∨ e = .kind := by
+  unfold fbdRun at h
+  rw [if_neg (by omega)] at h
+  split at h
+  · rename_i e' he
+    simp at h; subst h
+    exact Aux.fsloop P (ds.length + 1) fInit ds fbd_init_sinv (fbd_init_inv P) (by omega) e' he
+  · rename_i s rest hl
+    obtain ⟨s0, hI, _, rfl⟩ := fbd_loop_inv P _ _ _ _ _ (fbd_init_inv P) hl
+    have h1 : 1 ≤ (s0.tree.closeAlive s0.total).aliveCount := by
+      rw [Aux.closeAlive_count, ← hI.count]; exact hI.pos
+    have := Aux.finish_not_state n0 _ rest h1
+    cases e with
+    | draws => simp
+    | kind => simp
+    | state => exact absurd h this
+    | fuel =>
+      exfalso
+      unfold finish at h
+      split at h
+      · simp at h
+      · simp only at h
+        split at h
+        · split at h <;> simp at h
+        · split at h <;> simp at h
+    | arg =>
+      exfalso
+      unfold finish at h
+      split at h
+      · simp at h
+      · simp only at h
+        split at h
+        · split at h <;> simp at h
+        · split at h <;> simp at h
+
+namespace Aux
+theorem pbLoop_errors (n : Nat) : ∀ (f : Nat) (t : BT) (next : Nat) (ds : List Draw) (e : Err), ds.length < f →
+    pbLoop n f t next ds = .error e → e = .draws ∨ e = .kind := by
+  intro f
+  induction f with
+  | zero => intro t next ds e h; omega
+  | succ f ih =>
+    intro t next ds e hlen h
+    simp only [pbLoop] at h
+    split at h
+    · simp at h
+    · split at h
+      · rename_i w k ds2
+        split at h
+        · simp at h; simp [← h]
+        split at h
+        · simp at h; simp [← h]
+        · exact ih _ _ ds2 e (by simp at hlen; omega) h
+      · split at h <;> (simp at h; simp [← h])
+
+theorem coalEvent_errors (τ : Int) (nodes : List GT) (ds : List Draw) (e : Err) (h : coalEvent τ nodes ds = .error e) :
+    e = .draws ∨ e = .kind := by
+  unfold coalEvent at h
+  simp only at h
+  split at h
+  · simp at h; simp [← h]
+  · split at h
+    · split at h <;> simp at h
+      simp [← h]
+    · simp at h; simp [← h]
+  · simp at h; simp [← h]
+
+theorem coalLoop_errors (pop : Nat) : ∀ (f : Nat) (nodes : List GT) (rem : Option Int) (ds : List Draw) (e : Err),
+    coalLoop pop f nodes rem ds = .error e → e = .draws ∨ e = .kind ∨ e = .fuel := by
+  intro f
+  induction f with
+  | zero =>
+    intro nodes rem ds e h
+    simp only [coalLoop] at h
+    split at h <;> simp at h
+    simp [← h]
+  | succ f ih =>
+    intro nodes rem ds e h
+    simp only [coalLoop] at h
+    split at h
+    · simp at h
+    · split at h
+      · simp at h; simp [← h]
+      · split at h
+        · simp at h; simp [← h]
+        · split at h
+          · split at h
+            · rename_i e' he
+              simp at h; subst h
+              rcases coalEvent_errors _ _ _ _ he with h | h <;> simp [h]
+            · exact ih _ _ _ _ h
+          · simp at h
+      · simp at h; simp [← h]
+
+/-- without a period the loop only stops at a single lineage (or none) -/
+theorem coalLoop_none_len (pop : Nat) : ∀ (f : Nat) (nodes : List GT) (ds : List Draw) (nodes' : List GT) (rem' : Option Int) (ds' : List Draw),
+    coalLoop pop f nodes none ds = .ok (nodes', rem', ds') → nodes'.length ≤ 1 ∧ rem' = none := by
+  intro f
+  induction f with
+  | zero =>
+    intro nodes ds nodes' rem' ds' h
+    simp only [coalLoop] at h
+    split at h <;> simp at h
+    obtain ⟨rfl, rfl, _⟩ := h
+    exact ⟨by omega, rfl⟩
+  | succ f ih =>
+    intro nodes ds nodes' rem' ds' h
+    simp only [coalLoop] at h
+    split at h
+    · rename_i hle
+      simp at h
+      obtain ⟨rfl, rfl, _⟩ := h
+      exact ⟨hle, rfl⟩
+    · split at h
+      · simp at h
+      · split at h
+        · simp at h
+        · simp only [withinPeriod, if_true, Option.map_none] at h
+          split at h
+          · simp at h
+          · exact ih _ _ _ _ _ h
+      · simp at h
+
+theorem coalesce_errors (pop : Nat) (nodes : List GT) (period : Option Int) (ds : List Draw) (e : Err)
+    (h : coalesce pop nodes period ds = .error e) : e = .draws ∨ e = .kind := by
+  have hf := coalesce_fuel_suffices pop nodes period ds
+  unfold coalesce at h
+  split at h
+  · simp at h
+  · rename_i hne
+    split at h
+    · rename_i e' he
+      simp at h; subst h
+      rcases coalLoop_errors pop _ _ _ _ _ he with h | h | h
+      · simp [h]
+      · simp [h]
+      · subst h
+        exfalso
+        apply hf
+        unfold coalesce
+        rw [if_neg hne, he]
+    · exfalso
+      split at h
+      · split at h <;> simp at h
+      · simp at h
+
+theorem coalesce_none_len (pop : Nat) (nodes out : List GT) (ds ds' : List Draw)
+    (h : coalesce pop nodes none ds = .ok (out, ds')) : out.length ≤ 1 := by
+  unfold coalesce at h
+  split at h
+  · simp at h
+    obtain ⟨rfl, _⟩ := h
+    simp
+  · split at h
+    · simp at h
+    · rename_i nodes' rem' ds1 hl
+      obtain ⟨h1, rfl⟩ := coalLoop_none_len pop _ _ _ _ _ _ hl
+      simp at h
+      obtain ⟨rfl, _⟩ := h
+      exact h1
+
+mutual
+theorem edge_errors : ∀ (S : ST) (ds : List Draw) (e : Err), containedEdge S ds = .error e → e = .draws ∨ e = .kind
+  | .node i len pop genes cs, ds, e, h => by
+    simp only [containedEdge] at h
+    split at h
+    · rename_i e' he
+      simp at h; subst h
+      exact kids_errors cs ds e' he
+    · exact coalesce_errors _ _ _ _ _ h
+theorem kids_errors : ∀ (cs : List ST) (ds : List Draw) (e : Err), containedKids cs ds = .error e → e = .draws ∨ e = .kind
+  | [], ds, e, h => by simp [containedKids] at h
+  | c :: cs, ds, e, h => by
+    simp only [containedKids] at h
+    split at h
+    · rename_i e' he
+      simp at h; subst h
+      exact edge_errors c ds e' he
+    · split at h
+      · rename_i e' he
+        simp at h; subst h
+        exact kids_errors cs _ e' he
+      · simp at h
+end
+end Aux
+
+/-- `uniform_pure_birth_tree` over a non-empty namespace can only fail on its draw script (an empty namespace is refused: `arg`) -/
+theorem pb_only_script_errors (n : Nat) (ds : List Draw) (e : Err) (hn : 1 ≤ n) (h : pbRun n ds = .error e) : e = .draws ∨ e = .kind := by
+  unfold pbRun at h
+  rw [if_neg (by simp; omega)] at h
+  split at h
+  · rename_i e' he
+    simp at h; subst h
+    exact Aux.pbLoop_errors n _ _ _ ds e' (by omega) he
+  · split at h
+    · split at h <;> simp at h
+      simp [← h]
+    · simp at h; simp [← h]
+    · simp at h; simp [← h]
+
+/-- `pure_kingman_tree` over `n ≥ 1` taxa can only fail on its draw script (too short, wrong kind, or draws left over):
+the unconstrained coalescence always ends with a single lineage and the fuel suffices -/
+theorem kingman_only_script_errors (n pop : Nat) (ds : List Draw) (e : Err) (hn : 1 ≤ n) (h : kingman n pop ds = .error e) :
+    e = .draws ∨ e = .kind := by
+  unfold kingman at h
+  split at h
+  · rename_i e' he
+    simp at h; subst h
+    exact Aux.coalesce_errors _ _ _ _ _ he
+  · simp at h
+  · rename_i a b l ds' hc
+    have := Aux.coalesce_none_len _ _ _ _ _ hc
+    simp at this
+  · rename_i ds' hc
+    exfalso
+    have := (Aux.coalesce_ultra pop _ _ none ds ds' 0 (by
+      intro x hx p hp
+      simp only [List.mem_map] at hx
+      obtain ⟨k, _, rfl⟩ := hx
+      simp [GT.depths] at hp
+      simp [hp]) hc).2.2.2.1
+    apply this
+    · cases n with
+      | zero => omega
+      | succ m => simp [List.range_succ]
+    · rfl
+  · simp at h; simp [← h]
+
+/-- the contained coalescent never fails internally: `state` / `fuel` are unreachable, `arg` only reports a tree without genes -/
+theorem contained_never_internal_error (S : ST) (ds : List Draw) (e : Err) (h : contained S ds = .error e) :
+    e = .draws ∨ e = .kind ∨ e = .arg := by
+  cases S with
+  | node i len pop genes cs =>
+    simp only [contained] at h
+    split at h
+    · rename_i e' he
+      simp at h; subst h
+      rcases Aux.kids_errors cs ds e' he with h | h <;> simp [h]
+    · split at h
+      · rename_i e' he
+        simp at h; subst h
+        rcases Aux.coalesce_errors _ _ _ _ _ he with h | h <;> simp [h]
+      · simp at h
+      · simp at h; simp [← h]
+      · rename_i a b l ds' hc
+        have := Aux.coalesce_none_len _ _ _ _ _ hc
+        simp at this
+      · simp at h; simp [← h]
+
+mutual
+/-- every gene sampled in the population tree, own genes first, then the children's in order -/
+def ST.allGenes : ST → List (Nat × Nat)
+  | .node _ _ _ genes cs => genes ++ ST.allGenesL cs
+def ST.allGenesL : List ST → List (Nat × Nat)
+  | [] => []
+  | c :: cs => ST.allGenes c ++ ST.allGenesL cs
+end
+
+namespace Aux
+theorem coalEvent_perm (τ : Int) (nodes nodes1 : List GT) (ds ds1 : List Draw) (h : coalEvent τ nodes ds = .ok (nodes1, ds1)) :
+    (nodes1.flatMap GT.leaves).Perm (nodes.flatMap GT.leaves) := by
+  obtain ⟨i, j, a, b, ha, hb, hij, rfl, _⟩ := coalEvent_shape τ nodes nodes1 ds ds1 h
+  have hp := removeTwo_perm i j _ a b ha hb hij
+  have hp2 := (hp.flatMap_right GT.leaves)
+  simp only [List.flatMap_cons] at hp2
+  have e1 : (nodes.map (GT.addLen τ)).flatMap GT.leaves = nodes.flatMap GT.leaves := by
+    rw [List.flatMap_map]; simp [GT.leaves_addLen]
+  rw [e1] at hp2
+  simp only [List.flatMap_append, List.flatMap_cons, List.flatMap_nil, GT.leaves, List.append_nil]
+  refine List.Perm.trans ?_ hp2
+  refine List.perm_append_comm.trans ?_
+  simp [List.append_assoc]
+
+theorem coalLoop_perm (pop : Nat) : ∀ (f : Nat) (nodes : List GT) (rem : Option Int) (ds : List Draw)
+    (nodes' : List GT) (rem' : Option Int) (ds' : List Draw),
+    coalLoop pop f nodes rem ds = .ok (nodes', rem', ds') → (nodes'.flatMap GT.leaves).Perm (nodes.flatMap GT.leaves) := by
+  intro f
+  induction f with
+  | zero =>
+    intro nodes rem ds nodes' rem' ds' h
+    simp only [coalLoop] at h
+    split at h <;> simp at h
+    obtain ⟨rfl, _, _⟩ := h
+    exact List.Perm.refl _
+  | succ f ih =>
+    intro nodes rem ds nodes' rem' ds' h
+    simp only [coalLoop] at h
+    split at h
+    · simp at h
+      obtain ⟨rfl, _, _⟩ := h
+      exact List.Perm.refl _
+    · split at h
+      · simp at h
+      · split at h
+        · simp at h
+        · split at h
+          · split at h
+            · simp at h
+            · rename_i nodes1 ds1 hev
+              exact (ih _ _ _ _ _ _ h).trans (coalEvent_perm _ _ _ _ _ hev)
+          · simp at h
+            obtain ⟨rfl, _, _⟩ := h
+            exact List.Perm.refl _
+      · simp at h
+
+theorem coalesce_perm (pop : Nat) (nodes out : List GT) (period : Option Int) (ds ds' : List Draw)
+    (h : coalesce pop nodes period ds = .ok (out, ds')) : (out.flatMap GT.leaves).Perm (nodes.flatMap GT.leaves) := by
+  unfold coalesce at h
+  split at h
+  · rename_i hemp
+    simp at h
+    obtain ⟨rfl, _⟩ := h
+    simp at hemp
+    subst hemp
+    exact List.Perm.refl _
+  · split at h
+    · simp at h
+    · rename_i nodes' rem' ds1 hl
+      have hp := coalLoop_perm pop _ _ _ _ _ _ _ hl
+      split at h
+      · split at h
+        · simp at h
+          obtain ⟨rfl, _⟩ := h
+          rw [List.flatMap_map]
+          simpa [GT.leaves_addLen] using hp
+        · simp at h
+          obtain ⟨rfl, _⟩ := h
+          exact hp
+      · simp at h
+        obtain ⟨rfl, _⟩ := h
+        exact hp
+
+theorem own_genes_leaves (genes : List (Nat × Nat)) :
+    (genes.map (fun g => GT.leaf g.1 g.2 0)).flatMap GT.leaves = genes := by
+  induction genes with
+  | nil => simp
+  | cons g gs ih => simp [GT.leaves, ih]
+
+mutual
+theorem edge_leaves : ∀ (S : ST) (ds : List Draw) (out : List GT) (ds' : List Draw),
+    containedEdge S ds = .ok (out, ds') → (out.flatMap GT.leaves).Perm S.allGenes
+  | .node i len pop genes cs, ds, out, ds', h => by
+    simp only [containedEdge] at h
+    split at h
+    · simp at h
+    · rename_i inc ds1 hk
+      have h1 := kids_leaves cs ds inc ds1 hk
+      have h2 := coalesce_perm _ _ _ _ _ _ h
+      refine h2.trans ?_
+      simp only [List.flatMap_append, own_genes_leaves, ST.allGenes]
+      exact List.Perm.append_left _ h1
+theorem kids_leaves : ∀ (cs : List ST) (ds : List Draw) (out : List GT) (ds' : List Draw),
+    containedKids cs ds = .ok (out, ds') → (out.flatMap GT.leaves).Perm (ST.allGenesL cs)
+  | [], ds, out, ds', h => by
+    simp [containedKids] at h
+    obtain ⟨rfl, _⟩ := h
+    simp [ST.allGenesL]
+  | c :: cs, ds, out, ds', h => by
+    simp only [containedKids] at h
+    split at h
+    · simp at h
+    · rename_i up ds1 he
+      split at h
+      · simp at h
+      · rename_i ups ds2 hk
+        simp at h
+        obtain ⟨rfl, _⟩ := h
+        simp only [List.flatMap_append, ST.allGenesL]
+        exact (edge_leaves c ds up ds1 he).append (kids_leaves cs ds1 ups ds2 hk)
+end
+end Aux
+
+/-- **one leaf per sampled gene**: the gene tree returned by the contained coalescent carries exactly the genes sampled
+in the population tree, each once (its leaf list is a permutation of them) — for every draw list -/
+theorem contained_leaves (S : ST) (ds : List Draw) (g : GT) (h : contained S ds = .ok g) : g.leaves.Perm S.allGenes := by
+  cases S with
+  | node i len pop genes cs =>
+    simp only [contained] at h
+    split at h
+    · simp at h
+    · rename_i inc ds1 hk
+      have h1 := Aux.kids_leaves cs ds inc ds1 hk
+      split at h
+      · simp at h
+      · rename_i t' hc
+        simp at h; subst h
+        have h2 := Aux.coalesce_perm _ _ _ _ _ _ hc
+        simp only [List.flatMap_cons, List.flatMap_nil, List.append_nil] at h2
+        refine h2.trans ?_
+        simp only [List.flatMap_append, Aux.own_genes_leaves, ST.allGenes]
+        exact List.Perm.append_left _ h1
+      all_goals simp at h
+
+example : (contained exampleST [.w 1, .samp 0 1, .w 3, .samp 0 1]).toOption.map GT.leaves = some [(1, 1), (2, 1), (2, 2)] ∧
+    exampleST.allGenes = [(1, 1), (2, 1), (2, 2)] := by decide
+
+/-- non-vacuity of the progress theorems: the initial state satisfies both invariants, so by `bd_iter_progress`
+*any* six well-kinded draws let the first pass complete; here a concrete one -/
+example : ∃ st, bdIter ⟨some 3, none, 2, 1⟩ (bdInit ⟨some 3, none, 2, 1⟩) [.w 4, .u 1 8, .g 0, .g 0, .g 0, .g 0] = .ok st :=
+  bd_iter_progress _ _ 4 1 8 0 0 0 0 [] (by decide) (by decide) (bd_init_sinv _) (by decide) (by decide) (by decide)
+
+/-- the lookup invariant is kept by every pass through the loop body (with `Inv` this is the full loop invariant) -/
+theorem bd_sinv_step (P : BDParams) (s s' : BDState) (ds ds' : List Draw) (hb : 0 < P.b) (hd : 0 ≤ P.d) (hS : SInv P s)
+    (hg : GaussNonneg ds) (h : bdIter P s ds = .ok (.cont s' ds')) : SInv P s' ∧ GaussNonneg ds' := by
+  obtain ⟨a, b⟩ := (Aux.siter P s ds hb hd hS hg).2 s' ds' h
+  exact ⟨a, fun v hv => hg v (b _ hv)⟩
+
+/-- non-vacuity of the error characterisations: the two script errors do occur -/
+example : (match bdRun ⟨some 2, none, 2, 1⟩ 0 [.w 4] with | .error e => some e | .ok _ => none) = some Err.draws := by decide
+example : (match bdRun ⟨some 2, none, 2, 1⟩ 0 [.u 1 2] with | .error e => some e | .ok _ => none) = some Err.kind := by decide
+example : (match kingman 2 1 [.w 1, .samp 0 0] with | .error e => some e | .ok _ => none) = some Err.kind := by decide
+example : (match fbdRun ⟨some 2, none, 2, 1⟩ 0 [.w 4, .rint 5, .u 1 2] with | .error e => some e | .ok _ => none) = some Err.kind := by decide
+
+example : (match pbRun 0 [.w 1] with | .error e => some e | .ok _ => none) = some Err.arg := by decide
+
 end DendroModel.C18
